@@ -54,7 +54,7 @@ JudgeSteps(steps, i, cache, cacheR, tid, mvs, pfs) ==
                    IF s.real = m.r /\ poisoned THEN Poisoned
                    ELSE IF s.real = m.r /\ s.real = mf THEN FreshClass(A, B)
                    ELSE "viol:Sound")
-            /\ ChkS((A = B /\ IsPT(A)) => s.real, tid, i, "viol:Reflexive")
+            /\ ChkS((A = B /\ (IsPT(A) \/ A.k = "callable")) => s.real, tid, i, "viol:Reflexive")
             /\ ChkS(B = Never => s.real, tid, i, "viol:NeverBottom")
             /\ ChkS(A = TObj => s.real, tid, i, "viol:ObjectTop")
             /\ ChkS((B.k = "union" /\ np > 0) => (s.real <=> AllTrue(s.parts)), tid, i, IF lawDev THEN Poisoned ELSE "viol:UnionLeft")
@@ -79,9 +79,9 @@ JudgeSnip(o) ==
 JudgeMembers(o) == Chk(o.isproto /\ RangeOf(o.real) = ImplProtoMembers(o.proto, RealF), o.tid, "drift:protocol_members")
 
 JudgeRt(o) ==
-    LET c == o.o.c  p == o.pt.c
-    IN /\ Chk(o.present = RefPresent(c, p), o.tid, "oracle:presence")
-       /\ Chk(<<Typed(c), o.pt>> \in RefConf => (o.present /\ o.valok), o.tid, "oracle:member-values")
+    LET p == o.pt.c
+    IN /\ Chk(o.present = RefPresent(o.o, p), o.tid, "oracle:presence")
+       /\ Chk(PMember(o.o, o.pt) => (o.present /\ o.valok), o.tid, "oracle:member-values")
        /\ Chk(o.isinst = (IF ~PTab[p].rt THEN "typeerror" ELSE IF RtIsInstance(o.o, p) THEN "yes" ELSE "no"), o.tid, "oracle:isinstance")
 
 PTInit == l = 1 /\ PInit
